@@ -1,5 +1,5 @@
 import MpVerif.C15.Lemmas
-import MpVerif.C15.LemmasReentrant
+import MpVerif.C15.LemmasNested
 import MpVerif.Gen.Signal
 /-!
 # C15 — an interrupt is never lost and never delivered with inconsistent state
@@ -457,6 +457,93 @@ theorem C15_reentrant_counterexample_overcount :
 example :
     let s0 := (run .sysv init ((ctorSteps Layout.current).map Ev.step)).1
     (deliverNested .sysv s0 .int .int 1).1.halted = some (.killed .int) := by decide
+
+/-! ## histories WITH nested deliveries (composition of the re-entrance model with the history theorems)
+
+Event sequences over `EvN`: program steps, signals, and signals with a second signal raised inside their handler (at the
+places `NestAt`), in any number and any interleaving.  The lifecycle invariant is carried modulo the exact value of
+`stop_` (`InvN`: a nested delivery can make it 3).  What the property says about being *observed* and about the
+*callback* holds for all such histories; only the third-interrupt *count* does not (open finding C15-nested-miscount). -/
+
+/-- **No lost interrupt, histories with nested deliveries.**  After any well-formed history that may contain nested
+    deliveries, a signal — nested into or not — delivered while the handler object is installed is seen by the stop
+    query after any continuation of registrations, work steps and further (possibly nested) signals, if the process
+    still runs. -/
+theorem C15_nested_history_no_lost (L : Layout) (md : Mode) (pre : List EvN) (sp : SigSpec) (post : List EvN) (pc : PC)
+    (hpc : pcRunN L .idle pre = some pc) (hin : pc.installed = true)
+    (hpost : ∀ e ∈ post, BodyN e = true)
+    (hrun : (runN md init (pre ++ .sig sp :: post)).1.halted = none) :
+    stopQuery (runN md init (pre ++ .sig sp :: post)).1 = true := by
+  rw [runN_append, runN_cons] at hrun ⊢
+  simp only [] at hrun ⊢
+  have h1 := runN_halted_of md _ post hrun
+  have h0 := execN_halted_of md _ _ h1
+  have hinv := inv_runN L md pre .idle pc init invN_init hpc h0
+  generalize (runN md init pre).1 = s at *
+  have hobj : s.intr = .obj := by
+    cases pc <;> simp_all [PC.installed, InvN, normStop, Inv]
+  have eff := sig_effect md s sp h0 h1
+  have hb := bodyN_run md post _ hpost eff.2.1 hrun
+  have hi2 : (execN md s (.sig sp)).1.intr = .obj := by rw [eff.1]; exact hobj
+  unfold stopQuery
+  rw [hb.2, hi2]
+  simp
+  omega
+
+/-- **Pairing, histories with nested deliveries.**  Every callback invoked by a delivery (nested into or not, whether
+    or not the process survives it) after any well-formed history with nested deliveries is the last completed
+    registration with its data — at every point outside the old `SetHandler` window (which the current store order
+    does not have). -/
+theorem C15_nested_history_pairing (L : Layout) (md : Mode) (pre : List EvN) (sp : SigSpec) (pc : PC)
+    (hpc : pcRunN L .idle pre = some pc) (hw : pc.inWindow = false)
+    (hrun : (runN md init pre).1.halted = none) (h d : Nat)
+    (hcb : Obs.cb h d ∈ (execN md (runN md init pre).1 (.sig sp)).2) :
+    pc.curReg = some (h, d) := by
+  have hinv := inv_runN L md pre .idle pc init invN_init hpc hrun
+  generalize (runN md init pre).1 = s at *
+  obtain ⟨rfl, rfl, hne⟩ := sig_cbs md s sp hrun h d hcb
+  cases pc <;> simp_all [PC.inWindow, PC.curReg, InvN, normStop, Inv, regOK]
+  all_goals
+    rename_i r
+    cases r with
+    | none => simp_all
+    | some p => obtain ⟨a, b⟩ := p; simp_all
+
+/-- **No callback after teardown, histories with nested deliveries.** -/
+theorem C15_nested_history_after_teardown (L : Layout) (md : Mode) (pre : List EvN) (sp : SigSpec) (pc : PC)
+    (hpc : pcRunN L .idle pre = some pc) (hno : pc.noCallbackExpected = true)
+    (hrun : (runN md init pre).1.halted = none) (h d : Nat) :
+    Obs.cb h d ∉ (execN md (runN md init pre).1 (.sig sp)).2 := by
+  intro hcb
+  have hinv := inv_runN L md pre .idle pc init invN_init hpc hrun
+  generalize (runN md init pre).1 = s at *
+  obtain ⟨rfl, _, hne⟩ := sig_cbs md s sp hrun h d hcb
+  have : s.handler = 0 := by cases pc <;> simp_all [PC.noCallbackExpected, InvN, normStop, Inv]
+  exact hne this
+
+/-- a history with nested deliveries that meets all hypotheses: constructor, registration (1,2), SIGINT with SIGTERM
+    nested inside the callback, a work step; then SIGTERM with SIGINT nested inside `write` is delivered … -/
+private def exPreN : List EvN :=
+  ((ctorSteps Layout.current ++ regSteps Layout.current 1 2).map EvN.step) ++
+    [.sig ⟨.int, some (.term, .inCallback)⟩, .step .work]
+
+example : pcRunN Layout.current .idle exPreN = some (.live (some (1, 2))) ∧ (runN .bsd init exPreN).1.halted = none ∧
+    (runN .bsd init exPreN).1.stop = 2 ∧
+    (runN .bsd init exPreN).2 = [.brk 18 true, .cb 1 2, .brk 18 true, .cb 1 2, .rearm .term, .rearm .int, .query true] := by
+  decide
+
+/-- … and `C15_nested_history_pairing` applies to a nested delivery after a history with an earlier interrupt
+    (`stop_` is 1: SIGTERM with SIGINT nested in `write`; the nested handler invokes
+    (1,2), the outer one then exits) -/
+example : PC.curReg (.live (some (1, 2))) = some (1, 2) :=
+  C15_nested_history_pairing Layout.current .bsd
+    (((ctorSteps Layout.current ++ regSteps Layout.current 1 2).map EvN.step) ++ [.sig ⟨.int, none⟩, .step .work])
+    ⟨.term, some (.int, .inWrite)⟩ (.live (some (1, 2))) (by decide) (by decide) (by decide) 1 2 (by decide)
+
+/-- `C15_nested_history_no_lost` on a history whose only delivery is a nested one -/
+example : stopQuery (runN .sysv init (((ctorSteps Layout.current).map EvN.step) ++
+      .sig ⟨.int, some (.term, .inRearm)⟩ :: [.step (.setH 0), .step (.setD 2), .step (.setH 1), .step .work])).1 = true :=
+  C15_nested_history_no_lost Layout.current .sysv _ _ _ (.live none) (by decide) (by decide) (by decide) (by decide)
 
 /-! ## the handler stays installed -/
 
